@@ -149,6 +149,8 @@ impl EventGen for ReuseElement {
             new_events.push(end_ev);
             process_events(new_events, context)
         } else {
+            // a single element: <defaults> apply to it as to any hand-written leaf
+            context.apply_defaults(&mut instance_element);
             instance_element.generate_events(context)
         };
         context.pop_element();
